@@ -12,6 +12,11 @@ def Label.isSigwait : Label → Bool
   | .s (.sigwait _) => true
   | _ => false
 
+/-- inside `_list_slowthreads`: with thd_mutex (`listing`) or after it was released (`printing`) -/
+def SPC.inList : SPC → Bool
+  | .listing _ | .printing _ => true
+  | _ => false
+
 /-- only SIGINT is ever delivered -/
 def OnlyInt (ls : List Label) : Prop := ∀ g, Label.e (.deliver g) ∈ ls → g = .int
 
@@ -22,7 +27,7 @@ structure JInv (ls : List Label) (s : St) : Prop where
   cnt : s.pend.length + ls.countP Label.isSigwait ≤ ls.countP Label.isDeliver
   zero : ls.countP Label.isSigwait = 0 → s.last = 0 ∧ (s.spc = .off ∨ s.spc = .waiting ∨ s.spc = .cancelled)
   one : 0 < ls.countP Label.isSigwait →
-    (s.spc = .intT ∧ s.last = 0) ∨ s.spc = .intT2 ∨ s.spc = .listLock ∨ (∃ k, s.spc = .listing k) ∨
+    (s.spc = .intT ∧ s.last = 0) ∨ s.spc = .intT2 ∨ s.spc = .listLock ∨ s.spc.inList = true ∨
       s.spc = .waiting ∨ s.spc = .cancelled
   clk : INTR < s.now
   nb : s.batch = false
@@ -118,7 +123,7 @@ theorem jinv_step {ls : List Label} {s s' : St} {l : Label} (hj : JInv ls s) (hs
       rw [count_snoc]; simp [Label.isDeliver]
     -- which program counters are possible at all
     have hpcs : (s.spc = .off ∨ s.spc = .waiting ∨ s.spc = .cancelled) ∨
-        (s.spc = .intT ∧ s.last = 0) ∨ s.spc = .intT2 ∨ s.spc = .listLock ∨ (∃ k, s.spc = .listing k) := by
+        (s.spc = .intT ∧ s.last = 0) ∨ s.spc = .intT2 ∨ s.spc = .listLock ∨ s.spc.inList = true := by
       by_cases hz : ls.countP Label.isSigwait = 0
       · exact Or.inl (j3 hz).2
       · rcases j4 (by omega) with h | h | h | h | h | h
@@ -161,7 +166,7 @@ theorem jinv_step {ls : List Label} {s s' : St} {l : Label} (hj : JInv ls s) (hs
       · split at hd <;> simp at hd <;> subst hd <;> rename_i hw
         · -- intT: the first interrupt
           have hl0 : s.last = 0 := by
-            rcases hpcs with h | h | h | h | ⟨k, h⟩
+            rcases hpcs with h | h | h | h | h
             · rcases h with h | h | h <;> rw [hw] at h <;> cases h
             · exact h.2
             · rw [hw] at h; cases h
@@ -189,10 +194,25 @@ theorem jinv_step {ls : List Label} {s s' : St} {l : Label} (hj : JInv ls s) (hs
           refine ⟨⟨j1, ?_, ?_, ?_, j5, j6⟩, rfl⟩
           · rw [count_snoc, hnd]; simpa [Label.isSigwait] using j2
           · intro hc; rw [count_snoc] at hc; omega
+          · intro _; simp [SPC.inList]
+        · rename_i k
+          have hz : 0 < ls.countP Label.isSigwait := by
+            apply Nat.pos_of_ne_zero; intro hc
+            rcases (j3 hc).2 with h | h | h <;> rw [hw] at h <;> cases h
+          refine ⟨⟨j1, ?_, ?_, ?_, j5, j6⟩, rfl⟩
+          · rw [count_snoc, hnd]; simpa [Label.isSigwait] using j2
+          · intro hc; rw [count_snoc] at hc; omega
+          · intro _; simp [SPC.inList]
+        · have hz : 0 < ls.countP Label.isSigwait := by
+            apply Nat.pos_of_ne_zero; intro hc
+            rcases (j3 hc).2 with h | h | h <;> rw [hw] at h <;> cases h
+          refine ⟨⟨j1, ?_, ?_, ?_, j5, j6⟩, rfl⟩
+          · rw [count_snoc, hnd]; simpa [Label.isSigwait] using j2
+          · intro hc; rw [count_snoc] at hc; omega
           · intro _; simp
         · -- tstpT is unreachable
           exfalso
-          rcases hpcs with h | h | h | h | ⟨k, h⟩
+          rcases hpcs with h | h | h | h | h
           · rcases h with h | h | h <;> rw [hw] at h <;> cases h
           · rw [hw] at h; cases h.1
           · rw [hw] at h; cases h
@@ -208,9 +228,9 @@ theorem jinv_step {ls : List Label} {s s' : St} {l : Label} (hj : JInv ls s) (hs
         refine ⟨⟨j1, ?_, ?_, ?_, j5, j6⟩, rfl⟩
         · rw [count_snoc, hnd]; simpa [Label.isSigwait] using j2
         · intro hc; rw [count_snoc] at hc; omega
-        · intro _; simp
+        · intro _; simp [SPC.inList]
       · exfalso
-        rcases hpcs with h | h | h | h | ⟨k, h⟩
+        rcases hpcs with h | h | h | h | h
         · rcases h with h | h | h <;> rw [hw] at h <;> cases h
         · rw [hw] at h; cases h.1
         · rw [hw] at h; cases h
@@ -228,10 +248,19 @@ theorem jinv_step {ls : List Label} {s s' : St} {l : Label} (hj : JInv ls s) (hs
         · rw [count_snoc, hnd]; simpa [Label.isSigwait] using j2
         · intro hc; rw [count_snoc] at hc; omega
         · intro _; simp
+      · simp only [Option.some.injEq] at hd; subst hd
+        rename_i k hw
+        have hz : 0 < ls.countP Label.isSigwait := by
+          apply Nat.pos_of_ne_zero; intro hc
+          rcases (j3 hc).2 with h | h | h <;> rw [hw] at h <;> cases h
+        refine ⟨⟨j1, ?_, ?_, ?_, j5, j6⟩, rfl⟩
+        · rw [count_snoc, hnd]; simpa [Label.isSigwait] using j2
+        · intro hc; rw [count_snoc] at hc; omega
+        · intro _; simp [SPC.inList]
       · split at hd <;> simp at hd; subst hd
         rename_i k hw _
         exfalso
-        rcases hpcs with h | h | h | h | ⟨k, h⟩
+        rcases hpcs with h | h | h | h | h
         · rcases h with h | h | h <;> rw [hw] at h <;> cases h
         · rw [hw] at h; cases h.1
         · rw [hw] at h; cases h
@@ -243,7 +272,7 @@ theorem jinv_step {ls : List Label} {s s' : St} {l : Label} (hj : JInv ls s) (hs
       simp only [sStep] at hd
       split at hd <;> (try split at hd) <;> simp at hd
       rename_i k hw _
-      rcases hpcs with h | h | h | h | ⟨k, h⟩
+      rcases hpcs with h | h | h | h | h
       · rcases h with h | h | h <;> rw [hw] at h <;> cases h
       · rw [hw] at h; cases h.1
       · rw [hw] at h; cases h
@@ -254,7 +283,7 @@ theorem jinv_step {ls : List Label} {s s' : St} {l : Label} (hj : JInv ls s) (hs
       simp only [sStep] at hd
       split at hd <;> simp at hd
       rename_i _ hw
-      rcases hpcs with h | h | h | h | ⟨k, h⟩
+      rcases hpcs with h | h | h | h | h
       · rcases h with h | h | h <;> rw [hw] at h <;> cases h
       · rw [hw] at h; cases h.1
       · rw [hw] at h; cases h
@@ -265,7 +294,7 @@ theorem jinv_step {ls : List Label} {s s' : St} {l : Label} (hj : JInv ls s) (hs
       simp only [sStep] at hd
       split at hd <;> simp at hd
       rename_i hw
-      rcases hpcs with h | h | h | h | ⟨k, h⟩
+      rcases hpcs with h | h | h | h | h
       · rcases h with h | h | h <;> rw [hw] at h <;> cases h
       · rw [hw] at h; cases h.1
       · rw [hw] at h; cases h
@@ -276,7 +305,7 @@ theorem jinv_step {ls : List Label} {s s' : St} {l : Label} (hj : JInv ls s) (hs
       simp only [sStep] at hd
       split at hd <;> simp at hd
       rename_i hw
-      rcases hpcs with h | h | h | h | ⟨k, h⟩
+      rcases hpcs with h | h | h | h | h
       · rcases h with h | h | h <;> rw [hw] at h <;> cases h
       · rw [hw] at h; cases h.1
       · rw [hw] at h; cases h
@@ -287,7 +316,7 @@ theorem jinv_step {ls : List Label} {s s' : St} {l : Label} (hj : JInv ls s) (hs
       simp only [sStep] at hd
       split at hd <;> (try split at hd) <;> simp at hd
       rename_i hw _
-      rcases hpcs with h | h | h | h | ⟨k, h⟩
+      rcases hpcs with h | h | h | h | h
       · rcases h with h | h | h <;> rw [hw] at h <;> cases h
       · rw [hw] at h; cases h.1
       · rw [hw] at h; cases h
